@@ -179,27 +179,27 @@ func init() {
 		ID: "C08", Module: "GenLoops", CheckLog: false,
 		Quick:    []semRun{{Cfg: "GenLoops.quick.cfg", Workers: 8}},
 		Thorough: []semRun{{Cfg: "GenLoops.thorough.cfg", Workers: 12}},
-		Rule: "GenLoops.tla: 28 iterables (array literals of length 0..3, []interface{}, []int, [2]int, []string, range/between/until, a custom Iterator, Go maps and hash literals, five ways of being nil, six non-iterable kinds) x every loop body of up to MaxLen statements over 12 building blocks (emit value/key/text, if+break and if+continue with and without text before them, else branch, nested loop before/after, nested loop with its own break, function literal, return); expected output from the reference semantics, map loops as a set of admissible orders; for control-free bodies the model also emits the UNROLLED program and TLC checks loop = unrolled (UnrollTheorem); both are rendered by real plush. distinct_nontrivial = distinct (iterable, body) shapes with a specified outcome.",
-		Assume: []string{"return inside a loop body contributes its value and ends the iteration (pinned by the repository's Test_Render_For_Array_Return)", "break inside a loop over a map is order dependent and only checked for totality"},
+		Rule:     "GenLoops.tla: 28 iterables (array literals of length 0..3, []interface{}, []int, [2]int, []string, range/between/until, a custom Iterator, Go maps and hash literals, five ways of being nil, six non-iterable kinds) x every loop body of up to MaxLen statements over 12 building blocks (emit value/key/text, if+break and if+continue with and without text before them, else branch, nested loop before/after, nested loop with its own break, function literal, return); expected output from the reference semantics, map loops as a set of admissible orders; for control-free bodies the model also emits the UNROLLED program and TLC checks loop = unrolled (UnrollTheorem); both are rendered by real plush. distinct_nontrivial = distinct (iterable, body) shapes with a specified outcome.",
+		Assume:   []string{"return inside a loop body contributes its value and ends the iteration (pinned by the repository's Test_Render_For_Array_Return)", "break inside a loop over a map is order dependent and only checked for totality"},
 	})
 	registerSem(semSpec{
 		ID: "C16", Module: "GenFuncs", CheckLog: true,
 		Quick:    []semRun{{Cfg: "GenFuncs.quick.cfg", Workers: 8}},
 		Thorough: []semRun{{Cfg: "GenFuncs.thorough.cfg", Workers: 12}},
-		Rule: "GenFuncs.tla: functions of 0..MaxParams parameters whose bodies are if/return decision chains (conditions: parameter truthy / falsy / equal to another parameter; results: a parameter or a literal; a probe after every link and after the final return) x every argument tuple over a pool that includes caller variables named like the callee's parameters x six uses of the result (emit, condition, ==, let, argument of a Go helper, call through a parameter of a higher-order function). TLC checks ChainTheorem (value of the call = declarative first-match reading of the chain; probes after the first return reached never run; scope depth restored). Real plush must render the model's output and record the model's probe sequence. distinct_nontrivial = distinct (use, arity, chain length) shapes with specified outcome.",
+		Rule:     "GenFuncs.tla: functions of 0..MaxParams parameters whose bodies are if/return decision chains (conditions: parameter truthy / falsy / equal to another parameter; results: a parameter or a literal; a probe after every link and after the final return) x every argument tuple over a pool that includes caller variables named like the callee's parameters x six uses of the result (emit, condition, ==, let, argument of a Go helper, call through a parameter of a higher-order function). TLC checks ChainTheorem (value of the call = declarative first-match reading of the chain; probes after the first return reached never run; scope depth restored). Real plush must render the model's output and record the model's probe sequence. distinct_nontrivial = distinct (use, arity, chain length) shapes with specified outcome.",
 	})
 	registerSem(semSpec{
 		ID: "C09", Module: "GenScopes", CheckLog: false, TraceCtx: 400,
 		Quick:    []semRun{{Cfg: "GenScopes.quick.cfg", Workers: 8}},
 		Thorough: []semRun{{Cfg: "GenScopes.thorough.cfg", Workers: 12}},
-		Rule: "GenScopes.tla: every nesting up to MaxDepth of {for, user-function call, partial, contentFor/contentOf with data, block helper with own context} x {the construct itself binds the outer name x, a let in its body binds x}; every level binds a fresh name y_i and probes x and an outer-only name t inside, and x and y_i after the level ends. TLC checks ScopeTheorem (stack depth restored, top scope's x and t unchanged, no y_i leaked) and ProbeTheorem (probe text = declarative expectation) on the reference semantics; real plush must render the same probe output. Direction 2: the context constructions/writes the real evaluator performs while rendering these programs are recorded by the verif hooks and validated by TLC against ContextTrace.tla. distinct_nontrivial = distinct nesting shapes.",
+		Rule:     "GenScopes.tla: every nesting up to MaxDepth of {for, user-function call, partial, contentFor/contentOf with data, block helper with own context} x {the construct itself binds the outer name x, a let in its body binds x}; every level binds a fresh name y_i and probes x and an outer-only name t inside, and x and y_i after the level ends. TLC checks ScopeTheorem (stack depth restored, top scope's x and t unchanged, no y_i leaked) and ProbeTheorem (probe text = declarative expectation) on the reference semantics; real plush must render the same probe output. Direction 2: the context constructions/writes the real evaluator performs while rendering these programs are recorded by the verif hooks and validated by TLC against ContextTrace.tla. distinct_nontrivial = distinct nesting shapes.",
 	})
 	registerSem(semSpec{
 		ID: "C01", Module: "GenRoutes", CheckLog: false,
 		Quick:    []semRun{{Cfg: "GenRoutes.quick.cfg", Workers: 8}},
 		Thorough: []semRun{{Cfg: "GenRoutes.thorough.cfg", Workers: 12}},
-		Rule: "GenRoutes.tla: 5 payloads (specials, entity text, multi-byte, seeded PLAIN/MB classes) x 15 places the payload starts (string literal, back-quoted literal, context string, template.HTML, HTMLer, raw() of literal / variable, struct field (string / HTML), map element, []string / []interface{} element, helper result, whole []string / []interface{}) x sequences of <= MaxSteps of 10 plumbing steps (let, \"\" + x, x + \"\", array wrap + index, array wrap emitted whole, hash wrap + index, identity user function, emitting user function, Go identity helper, parentheses) x 14 sinks (top level, loop variable, if / else body, function body, function call in a loop, block helper with caller's / own context, contentFor+contentOf, contentOf data, contentOf default block, partial data, nested partial, layout yield). TLC checks TaintTheorem on the reference semantics (data never contributes a raw < > ' \"; trusted HTML appears verbatim exactly once). Real-code oracle: where the payload was data each of < > & ' \" must appear as an HTML entity (any spelling), where it was trusted HTML the bytes must appear verbatim exactly once, all surrounding literal text byte for byte. distinct_nontrivial = distinct (start, steps, sink) routes with a specified outcome.",
-		Assume: []string{"the printed form of string + trusted HTML is not specified (only that the string's characters stay escaped); a fmt.Stringer and a block helper that returns `string` are outside the property's quantifier"},
+		Rule:     "GenRoutes.tla: 5 payloads (specials, entity text, multi-byte, seeded PLAIN/MB classes) x 15 places the payload starts (string literal, back-quoted literal, context string, template.HTML, HTMLer, raw() of literal / variable, struct field (string / HTML), map element, []string / []interface{} element, helper result, whole []string / []interface{}) x sequences of <= MaxSteps of 10 plumbing steps (let, \"\" + x, x + \"\", array wrap + index, array wrap emitted whole, hash wrap + index, identity user function, emitting user function, Go identity helper, parentheses) x 14 sinks (top level, loop variable, if / else body, function body, function call in a loop, block helper with caller's / own context, contentFor+contentOf, contentOf data, contentOf default block, partial data, nested partial, layout yield). TLC checks TaintTheorem on the reference semantics (data never contributes a raw < > ' \"; trusted HTML appears verbatim exactly once). Real-code oracle: where the payload was data each of < > & ' \" must appear as an HTML entity (any spelling), where it was trusted HTML the bytes must appear verbatim exactly once, all surrounding literal text byte for byte. distinct_nontrivial = distinct (start, steps, sink) routes with a specified outcome.",
+		Assume:   []string{"the printed form of string + trusted HTML is not specified (only that the string's characters stay escaped); a fmt.Stringer and a block helper that returns `string` are outside the property's quantifier"},
 		// independent of the model (also for routes whose exact output is unspecified): a payload that
 		// started as a Go string must never reach the output with its special characters raw
 		PerRun: func(c *Ctx, sc *semCase, src string, v semVerdict) {
@@ -220,8 +220,8 @@ func init() {
 		ID: "C05", Module: "GenFaults", CheckLog: true,
 		Quick:    []semRun{{Cfg: "GenFaults.quick.cfg", Workers: 8}},
 		Thorough: []semRun{{Cfg: "GenFaults.thorough.cfg", Workers: 12}},
-		Rule: "GenFaults.tla: a fault (failing Go helper returning a sentinel error, division by zero, call of an unknown function, index out of range) placed at every position = 19 statement contexts (emit, silent tag, let, assignment, if/else body, loop body incl. only the second iteration, function body and return value, block helper with caller's and own context, contentFor block, contentOf default block, partial, nested partial, layout, partial data) applied to a stack of <= MaxNest of 35 expression contexts (both operands of all 13 operators incl. short-circuited ones, !, array/hash element, index and indexed, argument of Go helper / probe / user function, if and else-if condition, loop iterable). TLC checks NoSilentFailure on the reference semantics. Real-code oracle, independent of the model: whenever the instrumented failing helper was actually invoked, Render must return a non-nil error with errors.Is(err, sentinel) and the empty string; additionally the model's outcome (error or exact output) and probe sequence must match. distinct_nontrivial = distinct (fault, statement context, expression contexts) shapes in which the fault was really reached.",
-		Shape: func(sc *semCase) string { return "" }, // counted in PerRun: only when the fault was reached
+		Rule:     "GenFaults.tla: a fault (failing Go helper returning a sentinel error, division by zero, call of an unknown function, index out of range) placed at every position = 19 statement contexts (emit, silent tag, let, assignment, if/else body, loop body incl. only the second iteration, function body and return value, block helper with caller's and own context, contentFor block, contentOf default block, partial, nested partial, layout, partial data) applied to a stack of <= MaxNest of 35 expression contexts (both operands of all 13 operators incl. short-circuited ones, !, array/hash element, index and indexed, argument of Go helper / probe / user function, if and else-if condition, loop iterable). TLC checks NoSilentFailure on the reference semantics. Real-code oracle, independent of the model: whenever the instrumented failing helper was actually invoked, Render must return a non-nil error with errors.Is(err, sentinel) and the empty string; additionally the model's outcome (error or exact output) and probe sequence must match. distinct_nontrivial = distinct (fault, statement context, expression contexts) shapes in which the fault was really reached.",
+		Shape:    func(sc *semCase) string { return "" }, // counted in PerRun: only when the fault was reached
 		PerRun: func(c *Ctx, sc *semCase, src string, v semVerdict) {
 			reached := false
 			for _, cl := range v.Calls {
@@ -253,7 +253,7 @@ func init() {
 		ID: "C07", Module: "GenIf", CheckLog: true,
 		Quick:    []semRun{{Cfg: "GenIf.quick.cfg", Workers: 4}},
 		Thorough: []semRun{{Cfg: "GenIf.thorough.cfg", Workers: 8}},
-		Rule: "GenIf.tla enumerates (a) every value kind of the pool x {if, else-if, !, !!, && true, || false} and (b) every if/else-if/else chain of up to MaxN probe conditions with every truth assignment, with/without else, at top level and nested in a loop, a function, a helper block and as a silent tag in a loop; the model-level theorems KindTheorem / ChainTheorem (exactly the first truthy branch, evaluated conditions = prefix, six contexts agree) are TLC invariants; every case is rendered by real plush and output + recorded probe sequence are compared. distinct_nontrivial = distinct (family, kind or placement, context) shapes.",
-		Assume: []string{"opaque Go kinds (pointers, structs, nil slices/maps, other numeric widths, time, func) are materialised by the harness from their kind names"},
+		Rule:     "GenIf.tla enumerates (a) every value kind of the pool x {if, else-if, !, !!, && true, || false} and (b) every if/else-if/else chain of up to MaxN probe conditions with every truth assignment, with/without else, at top level and nested in a loop, a function, a helper block and as a silent tag in a loop; the model-level theorems KindTheorem / ChainTheorem (exactly the first truthy branch, evaluated conditions = prefix, six contexts agree) are TLC invariants; every case is rendered by real plush and output + recorded probe sequence are compared. distinct_nontrivial = distinct (family, kind or placement, context) shapes.",
+		Assume:   []string{"opaque Go kinds (pointers, structs, nil slices/maps, other numeric widths, time, func) are materialised by the harness from their kind names"},
 	})
 }
